@@ -329,9 +329,11 @@ def slos_recipes(draw, tier):
         npts = 1 if form == "both1d" else draw(st.sampled_from([1, 2, 3]))
         n = draw(st.sampled_from([1, 2, 3, 5, 8, 32, 100, 500]))
     dist = [draw(DIST) for _ in shape]
-    # positions as k/32 of the extent n*d of every axis (0 and 32 are the faces of the volume)
-    s = [[draw(st.integers(0, 32)) for _ in shape] for _ in range(npts)]
-    e = [[draw(st.integers(0, 32)) for _ in shape] for _ in range(npts)]
+    # positions as k/32 of the extent n*d of every axis (0 is the lower face of the volume; the upper face, 32, is
+    # left out: there the index coordinate shape-1 is hit only up to round-off, and one ulp beyond it the model's
+    # out-of-volume value (nan) applies - segments leaving the volume are not part of this sub-check)
+    s = [[draw(st.integers(0, 31)) for _ in shape] for _ in range(npts)]
+    e = [[draw(st.integers(0, 31)) for _ in shape] for _ in range(npts)]
     if form == "start1d":
         s = [s[0]] * npts
     if form == "end1d":
@@ -339,9 +341,9 @@ def slos_recipes(draw, tier):
     for i in range(npts):
         if s[i] == e[i]:          # no zero-length segments (the rows of the non-shared end are independent lists)
             if form == "end1d":
-                s[i] = [(s[i][0] + 7) % 33] + list(s[i][1:])
+                s[i] = [(s[i][0] + 7) % 32] + list(s[i][1:])
             else:
-                e[i] = [(e[i][0] + 7) % 33] + list(e[i][1:])
+                e[i] = [(e[i][0] + 7) % 32] + list(e[i][1:])
     coef = [[draw(st.integers(-8, 8)) / 4.0, draw(st.integers(-8, 8)) / 4.0] for _ in shape]
     return {"shape": shape, "dist": dist, "form": form, "s": s, "e": e, "coef": coef, "n": n,
             "order_kw": draw(st.booleans())}
